@@ -311,8 +311,15 @@ def validate(ctx, module, trace, label, key_fields=None, group=1, jopts="", samp
         raise ToolError("empty trace " + trace)
     # cut into chunks
     chunks, cur = [], []
+    prev_key = None
     for ln in lines:
-        if len(cur) >= (chunk or CHUNK) and (group == 1 or is_begin(ln)):
+        if group == "key":
+            k = json.loads(ln).get("id")
+            can_cut = k != prev_key
+            prev_key = k
+        else:
+            can_cut = group == 1 or is_begin(ln)
+        if len(cur) >= (chunk or CHUNK) and can_cut:
             chunks.append(cur)
             cur = []
         cur.append(ln)
@@ -380,14 +387,14 @@ def is_begin(ln):
 
 
 def count_cases(lines, group):
-    if group == 1:
+    if group == 1 or group == "key":
         return len(lines)
     return sum(1 for ln in lines if is_begin(ln))
 
 
 def case_events(chunk, i, group):
     """The events of the case containing chunk line i (0-based)."""
-    if group == 1:
+    if group == 1 or group == "key":
         return [json.loads(chunk[i])]
     a = i
     while a > 0 and not is_begin(chunk[a]):
